@@ -4,20 +4,94 @@ CFG = {
     "lean_exe": "lm_c05",
     "hooks": True,
     "theorems": [
+        # the browser reads the SSR string as the expected node sequence (all views of the grammar)
+        "Leptos.Hydrate.C05_parse_print",
+        # the walk finds every node, creates none, binds the existing nodes in order (all views, every DOM holding domOf v)
+        "Leptos.Hydrate.C05_hydrate_succeeds",
+        "Leptos.Hydrate.C05_hydrate_parsed",
+        # the hydrated state is a client-built state up to node identity (any DOM, any cursor)
+        "Leptos.Hydrate.C05_state_eq_build_state_mod_ids",
+        # refutation of "then like CSR" (F-C05-1), kernel-evaluated
+        "Leptos.Hydrate.C05_empty_text_witness",
+        "Leptos.Hydrate.C05_empty_text_witness_mid",
+        "Leptos.Hydrate.C05_then_like_csr_full_false",
+        # the lemmas the view theorems rest on
+        "Leptos.Hydrate.run_view",
+        "Leptos.Hydrate.run_list",
+        "Leptos.Hydrate.hyd_view",
+        "Leptos.Hydrate.hyd_list",
+        "Leptos.Hydrate.shape_hyd",
+        "Leptos.Hydrate.real_of_realB",
+        "Leptos.Hydrate.realises_of_realisesB",
+        "Leptos.Hydrate.wfH_of_wfV",
+        "Leptos.Hydrate.isVoid_agree",
+        "Leptos.Hydrate.sibling_next",
+        "Leptos.Hydrate.next_node",
     ],
     "harness_pkg": "hx-c05",
     "harness_bin": "c05",
     "n": {"quick": 12000, "thorough": 400000},
     "trivial_tags": ["plain"],
-    "rule": "",
-    "trusted": [],
-    "modelled": [],
-    "assumptions": [],
+    "rule": "forced coverage first: 42 hand-written (A, B) pairs, one per shape DESIGN §7 C05 names (adjacent strings top-level and in an "
+            "element; the empty string first / middle / last / alone, kept and changed; text after an element and element after text; "
+            "Option none<->some between strings and in an element; Either switch, same branch, unit branch; Vec empty / of elements / of strings "
+            "followed by a sibling, grow, shrink, clear, fill, Vec after a string, Vec of Vec, Vec of Option; nested tuples (fragments); `()` "
+            "alone and between strings; void elements; a child-less container; an element whose children follow a dynamic node; String / bool / "
+            "Option<String> attributes; an AnyView whose type changes on rebuild); then n seeded random cases: A = 1..3 sibling views of depth 1..4 "
+            "over 16 container tags (incl. a custom element) + 4 void tags in a nesting the HTML tree builder accepts, strings from 20 atoms "
+            "(markup characters, entity-like text, `<!>`, `-->`, non-ASCII, white space) with the empty string at 1/6, attribute kinds fixed per tag; "
+            "B = A with every dynamic choice re-drawn (strings changed or kept, Option toggled, Either switched, Vec cleared / halved / extended, "
+            "1/25 of the nodes replaced by a different view); 1 case in 12 is a `mis` op (A hydrated against the DOM of another view: the walk's "
+            "error paths). distinct = distinct op line; a case is trivial (`plain`) when it has no tag (no adjacent strings, no empty string, no "
+            "dynamic node, no void/child-less element, no attribute, no change on rebuild)",
+    "trusted": [
+        "hooks/native_dom.patch: tachys::renderer::native_dom (in-memory DOM: first_child / next_sibling / parent, kind casts, insertBefore / "
+        "remove / set_data / set_attribute, nodes_created, the hydration-error log) standing in for the browser DOM",
+        "the HTML standard (WHATWG tokenizer + 'in body' tree construction) as transcribed twice, independently: Leptos.Html.parse (Lean) and "
+        "hx_c06::html (Rust, included by path); both return 'outside the subset' instead of guessing; they are compared on every SSR string of the run",
+        "Model/Dom.lean + Model/View.lean (C03): build / mount / rebuild of the same views, used for the rebuild after hydration and for the "
+        "client-built twin; their faithfulness is checked here by the same byte-for-byte comparison (after= / csr= fields)",
+        "type erasure: every nested view of the harness is an AnyView (into_any()), attributes are Vec<AnyAttribute>; AnyView / AnyAttribute "
+        "forward to the typed impls (any_view.rs, any_attribute.rs), which is what the model assumes (`.any` is transparent)",
+    ],
+    "modelled": [
+        "RenderHtml::to_html_with_buf + the Position it leaves for String/&str, (), HtmlElement, tuples, Option, Either, Vec, AnyView "
+        "(view/strings.rs, tuples.rs, iterators.rs, either.rs, any_view.rs, html/element/mod.rs)",
+        "RenderHtml::hydrate::<true> for the same types; hydration.rs Cursor::{child, sibling, parent, next_placeholder}; "
+        "view/mod.rs Position / PositionState; failed_to_cast_{text,marker,element} as observable errors",
+        "Attribute::hydrate::<true> for Attr<K, String | Option<String> | bool> (state = value, element untouched)",
+        "Render::{build, rebuild}, Mountable::{mount, unmount, insert_before_this} of the same types through Model/View.lean (C03)",
+    ],
+    "assumptions": [
+        "sync form only: for a view without async parts the in-order and out-of-order streams concatenate to the sync string (checked on every "
+        "case against the real to_html_stream_in_order / _out_of_order); views with Suspend parts reduce to the sync form of the resolved view "
+        "through C07 (C07_in_order / C07_out_of_order) — stated as a remark in Theorems/C05.lean, not re-proved here",
+        "grammar: ordinary containers and void elements of the parser table, nested as the HTML tree builder accepts without implied end tags "
+        "(C06's assumption); strings free of NUL/CR (F-C06-3/4); plain / boolean / optional attributes with distinct tokenizable names "
+        "(class and style values are normalised differently by SSR and by the DOM: C03/C06); tuples of at most 6 components in the harness",
+        "not covered: Keyed, StaticVec / Fragment (nested tuples are), InertElement and view! templates (FROM_SERVER = false), islands, "
+        "inner_html, raw-text elements with children (ESCAPE_CHILDREN = false: hydrate keeps no child state — see limits in the report), "
+        "<pre>/<textarea> leading-newline and table/select foster-parenting rules of the HTML parser (outside the parser subset)",
+        "C05_hydrate_succeeds quantifies over every DOM that holds domOf v (predicate Realises); that the harness' loader produces such a DOM is "
+        "evaluated by the driver on every case (loadOK) and kernel-checked on the examples; the general statement C05_load_realises_stmt is OPEN",
+        "C05_then_like_csr_partial_stmt (no empty string in A => hydrated-then-rebuilt = client-built-then-rebuilt, comments aside) is OPEN as a "
+        "theorem: it is evaluated on every generated pair by the model and by the real code, and kernel-checked on the examples",
+    ],
     "manifest": {
         "category": "proof",
-        "text": "",
-        "design_ref": "DESIGN.md §6.3, §6.4, §7 C05",
-        "note": "",
-        "technique": "",
+        "text": "Lean 4 theorems over all view trees of the modelled combinator grammar (strings incl. the empty string, (), ordinary and void "
+                "elements with plain/boolean/optional attributes, nested tuples, Option, Either, Vec, AnyView; structural induction, no size "
+                "bound): the HTML parser reads the SSR string as exactly the expected node sequence incl. the <!> markers and the ' ' of an "
+                "empty string; on every DOM holding that sequence the cursor walk of hydrate::<true> reaches no failed_to_cast branch, creates "
+                "no node and returns exactly the state that adopts the existing nodes front to back (kinds and text data as retained); whenever "
+                "the walk succeeds the state equals a client-built state up to node identity. 'Behaves like a client-built view afterwards' is "
+                "refuted by a kernel-evaluated witness (F-C05-1: the empty string stays ' ' after hydration) and otherwise established by "
+                "differential testing only (statement OPEN). Tied to the code by a byte-for-byte differential run: real to_html (+ both stream "
+                "forms) -> independent Rust HTML parser -> native DOM -> real hydrate::<true> (outcome / error kind, nodes created) -> real "
+                "rebuild, against a client-built twin; the Lean parser is compared with the Rust parser on every SSR string.",
+        "design_ref": "DESIGN.md §6.3, §6.4, §7 C05, §8 F-C05-1",
+        "note": "model hand-written; sync form only (streamed forms reduce through C07); post-hydration rebuild equivalence is tested, not proved",
+        "technique": "Lean 4 proof (induction over view trees; tokenizer lemmas of C06; cursor/sibling invariants over the DOM model) + "
+                     "kernel-evaluated refutation witness + differential correspondence on the native DOM",
     },
 }
